@@ -73,6 +73,7 @@ type Conn struct {
 	rArmed      bool
 	rFired      bool
 	wFired      bool
+	wArmed      bool
 	rDeadline   time.Time
 	blockedW    int // goroutines blocked in Write on the send window
 	parked      int // goroutines blocked in Read with nothing deliverable
@@ -337,6 +338,7 @@ func (c *Conn) setDeadline(kind string, t time.Time) error {
 		c.rFired = c.rArmed && !t.After(now)
 	}
 	if kind == "rw" || kind == "w" {
+		c.wArmed = !t.IsZero()
 		c.wFired = !t.IsZero() && !t.After(now)
 	}
 	c.hook("deadline-"+kind, nil)
@@ -433,6 +435,18 @@ func (c *Conn) FireReadDeadline() bool {
 		return false
 	}
 	c.rFired = true
+	c.l.cond.Broadcast()
+	return true
+}
+
+// FireWriteDeadline lets the endpoint's armed WRITE deadline expire now (virtual time); false if none is armed.
+func (c *Conn) FireWriteDeadline() bool {
+	c.l.mu.Lock()
+	defer c.l.mu.Unlock()
+	if !c.wArmed {
+		return false
+	}
+	c.wFired = true
 	c.l.cond.Broadcast()
 	return true
 }
